@@ -255,7 +255,7 @@ func (t *tr) join(cond string, thenL, elseL []ast.Stmt) {
 						// (sameVal also compares view bounds, slot references and the nil / error
 						// state: a change of any of them in one branch only must not be dropped)
 						if !sameVal(nv, ob.v) {
-							if t.g.loops && t.ptrVarJoinable(ob.v, nv, m) {
+							if t.g.loops && t.ptrVarJoinable(ob.v, nv, m) && !t.heldElsewhere(ob.v, outer, it.v) {
 								break // carried as a value: see below
 							}
 							t.fail("variable %s of type %s is re-assigned in one branch of an if without return", it.v, ob.v.t)
@@ -390,6 +390,12 @@ func simplifyLet(s string) string {
 		}
 	}
 	return s
+}
+
+// heldElsewhere: another variable refers to the storage old points to: joining the
+// variable as a value would cut it off from that alias (old := l; if c { l = append(l, v) }).
+func (t *tr) heldElsewhere(old *val, env map[string]*binding, name string) bool {
+	return old.c != nil && len(t.holders(old.c, env, name)) > 0
 }
 
 // ptrVarJoinable (loops mode): a pointer variable that a branch makes point
